@@ -158,6 +158,10 @@ func TestC08(t *testing.T) {
 				if h == 1 {
 					nset = 2
 				}
+				if h == 2 || rng.Chance(1, 12) {
+					// a long history: "however many times it was Set or Applied in between"
+					nset = 17 + rng.Intn(60)
+				}
 				var hist []string
 				c := map[string]interface{}{"var": d.Name, "type": d.Type, "exported": exported}
 				fail := func(key, what string) {
